@@ -100,10 +100,8 @@ impl Monitor {
             let key = if class == "rsync-copy" { canon_key(class, udet.trim_end_matches('/')) } else { canon_key(class, udet) };
             // dumps go to a directory chosen per dump; keep them apart per base
             let pkey = p.clone();
-            // A dump directory holds the files of a whole repository; the property speaks of files. Two repositories
-            // mapped to one dump directory (an RRDP server whose host is literally "rsync") still keep one file per
-            // object URI, so directories are only checked for confinement.
-            if kind == "dump-repository" { rep.class(format!("{leg}|{kind}|dir")); continue }
+            // Dump directories: one per repository (that is what the registry's numbering is for), and none may be the
+            // directory of the rsync-fetched data. Keyed per dump base so that separate dumps do not interfere.
             match self.by_path.get(&pkey) {
                 Some((k, u)) if *k != key => {
                     rep.violation(format!("C30/shared-path/{kind}"), format!("{path} is used both for {u} and for {uridetail}, which are not equivalent"), json!({"leg": leg, "path": path, "first": u, "second": uridetail, "kind": kind}));
@@ -201,6 +199,22 @@ fn run_c30(ctx: &mut Ctx, rep: &mut Report) {
             drop(run);
             mon.absorb(&hooks, &cache, None, rep, "direct");
         } else { rep.inconclusive("rrdp collector init"); }
+        // dump registry: several repositories per host, hosts that look like the registry's own numbering, a host that
+        // is literally "rsync"
+        {
+            let dump_base = env.dir.join("dump/store");
+            let mut reg = routinator::utils::dump::DumpRegistry::new(dump_base.clone());
+            let _ = reg.get_repo_path(None);
+            let mut extra: Vec<uri::Https> = Vec::new();
+            for h in ["dup.test", "dup.test-1", "rsync", "rsync-1", "DUP.test"] { for p in ["a/n.xml", "b/n.xml", "c/n.xml", "d/n.xml"] { if let Ok(u) = uri::Https::from_str(&format!("https://{h}/{p}")) { extra.push(u) } } }
+            for u in extra.iter().chain(https_uris.iter().take(ctx.tier.pick(300usize, 3000))) {
+                let first = reg.get_repo_path(Some(u));
+                let again = reg.get_repo_path(Some(u));
+                rep.eval();
+                if first != again { rep.violation("C30/dump-directory-not-stable", format!("{u} was given {} and then {}", first.display(), again.display()), json!({"uri": u.to_string()})); }
+            }
+            mon.absorb(&hooks, &cache, Some(&env.dir.join("dump")), rep, "direct");
+        }
         // nothing may have appeared outside the directories handed to routinator
         let mut after = BTreeSet::new(); walk(&ctx.scratch, &mut after);
         for p in after.difference(&before_outside) {
